@@ -17,12 +17,13 @@ Theorem C02_inv_initial : forall W H bpp, 0 < W -> 0 < H -> Inv (init_state W H 
 Proof. exact init_inv. Qed.
 
 (* DESIGN.md C02_inv_preserved: for every operation list, any number of clients, any screen size,
-   offsets and knobs.  [run_ok] carries the only exclusions that are still real (op_ok):
-     copy rectangles handed to the library are non-empty; a FramebufferUpdateRequest is non-empty
-     after clipping (the empty request is F4 of property C03); a cursor has a positive size.
+   offsets and knobs.  [run_ok] only states input well-formedness (op_ok): copy rectangles handed to
+   the library are non-empty, the four fields of a FramebufferUpdateRequest are unsigned wire
+   values, a cursor has a positive size.
    Since the fixes 737e111 (rfbDoCopyRegion order), 812461a (NULL cursor), d179288 (off-screen
-   marks) the theorem covers rfbDoCopyRegion on EVERY well-formed region, marks / draws with ANY
-   arguments and screens without a cursor; the former refutations are gone. *)
+   marks), d5a464d (empty requests are ignored) the theorem covers rfbDoCopyRegion on EVERY
+   well-formed region, marks / draws with ANY arguments, screens without a cursor and requests of
+   ANY geometry; the former refutations / exclusions are gone. *)
 Theorem C02_inv_preserved : forall ops st st',
   Inv st -> run_ok st ops -> run st ops = Some st' -> Inv st'.
 Proof. exact run_inv. Qed.
